@@ -821,3 +821,386 @@ Section LimitsGeBase.
     apply (Forall_map_impl invJ invJ finish1); [apply finish1_J|]. apply batch_loop_J. exact HJ.
   Qed.
 End LimitsGeBase.
+
+(* ==================================================================================================================
+   Tracks with fixed sizing functions.  `rigid`: min and max track sizing function are definite (every gutter; every
+   `<length>`, `minmax(<length>, <length>)`, percentages under a definite container size).  Such a track is never an
+   "affected" track of 11.5: its base size can only change in the "distribute beyond limits" call with
+   `filter = |_| true` of an item spanning it together with other tracks. *)
+Section Rigid.
+  Context {T : Type} `{Num T}.
+  Variable inner : option T.
+
+  Definition is_definite_sf (f : sfn T) : bool := match definite_value inner f with Some _ => true | None => false end.
+  Definition rigid (t : track T) : Prop := is_definite_sf (minf t) = true /\ is_definite_sf (maxf t) = true.
+
+  Lemma rigid_static t t' : static_eq t t' -> rigid t -> rigid t'.
+  Proof. intros [_ [_ [E1 [E2 _]]]] [R1 R2]. unfold rigid. rewrite E1, E2. auto. Qed.
+
+  Lemma definite_cases f : is_definite_sf f = true ->
+    (exists v, f = SLength v) \/ (exists v s, f = SPercent v /\ inner = Some s).
+  Proof.
+    unfold is_definite_sf, definite_value. destruct f; try discriminate; [left; eauto|].
+    destruct inner as [s|]; [|discriminate]. right. eauto.
+  Qed.
+
+  (* none of the "affected track" predicates of 11.5 selects a rigid track *)
+  Lemma rigid_unaffected t : rigid t ->
+    has_intrinsic_min inner t = false /\ is_min_or_max_content (minf t) = false /\ has_max_content_min t = false /\
+    has_auto_min t = false /\ negb (has_definite_value inner (maxf t)) = false /\ has_max_content_max inner t = false /\
+    is_flexible t = false.
+  Proof.
+    intros [R1 R2]. unfold has_intrinsic_min, has_max_content_min, has_auto_min, has_max_content_max, has_definite_value, is_flexible.
+    destruct (definite_cases _ R1) as [[v E]|[v [s [E Ei]]]]; destruct (definite_cases _ R2) as [[w E']|[w [s' [E' Ei']]]];
+      rewrite E, E'; try rewrite Ei; try rewrite Ei'; simpl; auto 10.
+  Qed.
+
+  (* ---- list plumbing *)
+  Definition in_range (it : item T) (i : nat) : Prop := (range_start it <= i < range_start it + range_len it)%nat.
+
+  Lemma nth_update_nth (g : track T -> track T) j : forall (ts : list (track T)) i,
+    nth_error (update_nth j g ts) i = if Nat.eqb i j then option_map g (nth_error ts i) else nth_error ts i.
+  Proof.
+    induction j as [|j IH]; intros ts i.
+    - destruct ts as [|t r]; destruct i; simpl; auto.
+    - destruct ts as [|t r].
+      + simpl. destruct i as [|i]; [reflexivity|]. simpl. destruct (Nat.eqb i j); destruct i; reflexivity.
+      + destruct i as [|i]; simpl; [reflexivity|]. apply IH.
+  Qed.
+
+  Lemma splice_nth (l1 m m' l3 : list (track T)) i : length m = length m' ->
+    (i < length l1 \/ length l1 + length m <= i)%nat -> nth_error (l1 ++ m' ++ l3) i = nth_error (l1 ++ m ++ l3) i.
+  Proof.
+    intros Hl [Hi|Hi].
+    - rewrite !nth_error_app1; auto.
+    - rewrite !(nth_error_app2 l1); try lia. rewrite !nth_error_app2; try lia. rewrite Hl. reflexivity.
+  Qed.
+
+  Lemma slice_length (ts : list (track T)) a n : length (slice ts a n) = Nat.min n (length ts - a).
+  Proof. unfold slice. rewrite firstn_length, skipn_length. reflexivity. Qed.
+
+  Lemma on_slice_out (it : item T) F (ts : list (track T)) i :
+    length (F (item_slice it ts)) = length (item_slice it ts) -> ~ in_range it i ->
+    nth_error (on_slice it F ts) i = nth_error ts i.
+  Proof.
+    intros Hl Hout. unfold on_slice. rewrite (split3 ts (range_start it) (range_len it)) at 4.
+    unfold item_slice in *. apply splice_nth; [symmetry; exact Hl|].
+    unfold in_range in Hout. rewrite firstn_length, slice_length. lia.
+  Qed.
+
+  Lemma slice_single (ts : list (track T)) a t : nth_error ts a = Some t -> slice ts a 1 = [t].
+  Proof.
+    unfold slice. revert ts. induction a as [|a IH]; intros ts E; destruct ts as [|x r]; try discriminate; simpl in *.
+    - inversion E. reflexivity.
+    - apply IH. exact E.
+  Qed.
+
+  Lemma on_slice_single (it : item T) F (ts : list (track T)) t :
+    range_len it = 1%nat -> nth_error ts (range_start it) = Some t -> F [t] = [t] -> on_slice it F ts = ts.
+  Proof.
+    intros Hn Ht HF. unfold on_slice, item_slice. rewrite Hn, (slice_single ts _ t Ht), HF.
+    rewrite <- (slice_single ts _ t Ht). symmetry. apply split3.
+  Qed.
+
+  (* ---- a distribution over tracks none of which is affected changes nothing *)
+  Lemma inner_noaff space (sl : list (track T)) aff p limit ct :
+    existsb aff sl = false -> distribute_item_space_to_base_size_inner space sl aff p limit ct = sl.
+  Proof. intro E. unfold distribute_item_space_to_base_size_inner. rewrite E. simpl. rewrite orb_true_r. reflexivity. Qed.
+
+  Lemma base_size_noaff fl ff space (sl : list (track T)) aff limit ct :
+    existsb aff sl = false -> distribute_item_space_to_base_size fl ff space sl aff limit ct = sl.
+  Proof.
+    intro E. unfold distribute_item_space_to_base_size.
+    assert (E' : existsb (fun t => is_flexible t && aff t) sl = false).
+    { clear -E. induction sl as [|t r IH]; simpl in *; [reflexivity|]. apply orb_false_iff in E. destruct E as [E1 E2].
+      rewrite E1, andb_false_r. simpl. apply IH. exact E2. }
+    destruct fl; [destruct ff|]; apply inner_noaff; assumption.
+  Qed.
+
+  Lemma growth_noaff space (sl : list (track T)) aff :
+    existsb aff sl = false -> distribute_item_space_to_growth_limit inner space sl aff = sl.
+  Proof.
+    intro E. unfold distribute_item_space_to_growth_limit.
+    assert (E' : filter aff sl = []).
+    { clear -E. induction sl as [|t r IH]; simpl in *; [reflexivity|]. apply orb_false_iff in E. destruct E as [E1 E2].
+      rewrite E1. apply IH. exact E2. }
+    rewrite E'. simpl. rewrite orb_true_r. reflexivity.
+  Qed.
+
+  Lemma to_base_size_length fl ff space (sl : list (track T)) aff limit ct :
+    length (distribute_item_space_to_base_size fl ff space sl aff limit ct) = length sl.
+  Proof.
+    symmetry. apply (Forall2_length_eq static_eq).
+    apply (pw_lift false (fun _ => True) static_eq (fun t _ => static_refl t) static_trans prim_static _
+                   (pw_to_base_size fl ff space aff limit ct)).
+    apply Forall_forall. auto.
+  Qed.
+
+  Lemma to_growth_limit_length space (sl : list (track T)) aff :
+    length (distribute_item_space_to_growth_limit inner space sl aff) = length sl.
+  Proof.
+    symmetry. apply (Forall2_length_eq static_eq).
+    apply (pw_lift false (fun _ => True) static_eq (fun t _ => static_refl t) static_trans prim_static _
+                   (pw_to_growth_limit false inner space aff)).
+    apply Forall_forall. auto.
+  Qed.
+
+  (* `uncovered`: an item whose range contains the index covers nothing else *)
+  Definition alone (it : item T) (i : nat) : Prop := in_range it i -> range_start it = i /\ range_len it = 1%nat.
+
+  Lemma in_range_dec (it : item T) i : {in_range it i} + {~ in_range it i}.
+  Proof.
+    unfold in_range. destruct (le_lt_dec (range_start it) i); [|right; lia].
+    destruct (le_lt_dec (range_start it + range_len it) i); [right; lia|left; lia].
+  Qed.
+
+  Lemma to_base_keep fl ff (it : item T) space aff limit ct (ts : list (track T)) i t :
+    nth_error ts i = Some t -> alone it i -> aff t = false ->
+    nth_error (to_base fl ff it space aff limit ct ts) i = Some t.
+  Proof.
+    intros Ht Ha Hf. unfold to_base. destruct (ltb zero space); [|exact Ht].
+    destruct (in_range_dec it i) as [Hin|Hout].
+    - destruct (Ha Hin) as [Es En]. subst i. rewrite (on_slice_single it _ ts t En Ht); [exact Ht|].
+      apply base_size_noaff. simpl. rewrite Hf. reflexivity.
+    - rewrite on_slice_out; [exact Ht|apply to_base_size_length|exact Hout].
+  Qed.
+
+  Lemma to_limit_keep (it : item T) space aff (ts : list (track T)) i t :
+    nth_error ts i = Some t -> alone it i -> aff t = false ->
+    nth_error (to_limit inner it space aff ts) i = Some t.
+  Proof.
+    intros Ht Ha Hf. unfold to_limit. destruct (ltb zero space); [|exact Ht].
+    destruct (in_range_dec it i) as [Hin|Hout].
+    - destruct (Ha Hin) as [Es En]. subst i. rewrite (on_slice_single it _ ts t En Ht); [exact Ht|].
+      apply growth_noaff. simpl. rewrite Hf. reflexivity.
+    - rewrite on_slice_out; [exact Ht|apply to_growth_limit_length|exact Hout].
+  Qed.
+
+  Lemma fold_keep {A} (G : A -> list (track T) -> list (track T)) (l : list A) i t :
+    (forall a ts, In a l -> nth_error ts i = Some t -> nth_error (G a ts) i = Some t) ->
+    forall ts, nth_error ts i = Some t -> nth_error (fold_left (fun ts a => G a ts) l ts) i = Some t.
+  Proof.
+    induction l as [|a l IH]; intros HG ts Ht; simpl; [exact Ht|].
+    apply IH; [intros; apply HG; [right|]; assumption|]. apply HG; [left; reflexivity|exact Ht].
+  Qed.
+End Rigid.
+
+(* ---- exactness: a rigid track that no item covers together with other tracks keeps its base size (and growth limit)
+   through 11.5 (exact arithmetic; `calm v`: base size and growth limit equal v, nothing planned or incurred) *)
+Definition calm (v : Q) (t : track XQ) : Prop :=
+  (exists b, base_size t = Fin b /\ b == v) /\ (exists g, growth_limit t = Fin g /\ g == v) /\ incurred t = Fin 0 /\
+  (exists p, base_planned t = Fin p /\ p == 0) /\ (exists l, limit_planned t = Fin l /\ l == 0).
+
+Lemma In_firstn_sub {A} (x : A) n l : In x (firstn n l) -> In x l.
+Proof. revert l. induction n as [|n IH]; intros l Hx; destruct l as [|y r]; simpl in *; try contradiction. destruct Hx; [left|right]; auto. Qed.
+Lemma In_skipn_sub {A} (x : A) n l : In x (skipn n l) -> In x l.
+Proof. revert l. induction n as [|n IH]; intros l Hx; destruct l as [|y r]; simpl in *; auto. Qed.
+Lemma In_insert_item {T} (x y : item T) l : In x (insert_item y l) -> x = y \/ In x l.
+Proof.
+  induction l as [|z r IH]; simpl; [intros [E|[]]; auto|].
+  destruct (item_lt y z); simpl; intros [E|Hx]; auto. destruct (IH Hx); auto.
+Qed.
+Lemma In_sort_items {T} (x : item T) items : In x (sort_items items) -> In x items.
+Proof.
+  unfold sort_items.
+  assert (Hg : forall acc, In x (fold_left (fun acc y => insert_item y acc) items acc) -> In x items \/ In x acc).
+  { induction items as [|y r IH]; intros acc Hx; simpl in *; [right; exact Hx|].
+    destruct (IH _ Hx) as [Hr|Ha]; [left; right; exact Hr|]. destruct (In_insert_item _ _ _ Ha); [left; left; auto|right; auto]. }
+  intro Hx. destruct (Hg [] Hx) as [Hi|[]]. exact Hi.
+Qed.
+
+Section Exact.
+  Variable contrib : item XQ -> ckind -> XQ.
+  Variable inner : option XQ.
+  Variable avail : avail_space XQ.
+  Variable i : nat.
+  Variable v : Q.
+
+  Definition keeps (F : list (track XQ) -> list (track XQ)) : Prop :=
+    forall ts t, nth_error ts i = Some t -> rigid inner t -> calm v t ->
+                 exists t', nth_error (F ts) i = Some t' /\ rigid inner t' /\ calm v t'.
+
+  Lemma keeps_comp F G : keeps F -> keeps G -> keeps (fun ts => G (F ts)).
+  Proof. intros HF HG ts t Ht Hr Hc. destruct (HF ts t Ht Hr Hc) as [t1 [E1 [R1 C1]]]. apply (HG (F ts) t1 E1 R1 C1). Qed.
+
+  Lemma keeps_map g : Prim false g -> (forall t, rigid inner t -> calm v t -> calm v (g t)) -> keeps (map g).
+  Proof.
+    intros Hg Hc ts t Ht Hr Hca. exists (g t). split; [apply map_nth_error; exact Ht|]. split; [|apply Hc; assumption].
+    eapply rigid_static; [|exact Hr]. apply (prim_static g Hg t I).
+  Qed.
+
+  (* a fold of per-item updates each of which leaves track i alone, followed by a map *)
+  Lemma keeps_fold_map {A} (G : A -> list (track XQ) -> list (track XQ)) (l : list A) g :
+    (forall a ts t, In a l -> nth_error ts i = Some t -> rigid inner t -> nth_error (G a ts) i = Some t) ->
+    Prim false g -> (forall t, rigid inner t -> calm v t -> calm v (g t)) ->
+    keeps (fun ts => map g (fold_left (fun ts a => G a ts) l ts)).
+  Proof.
+    intros HG Hg Hc. apply (keeps_comp (fun ts => fold_left (fun ts a => G a ts) l ts) (map g)); [|apply keeps_map; assumption].
+    intros ts t Ht Hr Hca. exists t. split; [|split; assumption].
+    apply fold_keep; [|exact Ht]. intros a ts' Ha Ht'. apply HG; assumption.
+  Qed.
+
+  (* the six primitives that reach an uncovered rigid track *)
+  Ltac calm_intro t :=
+    destruct t as [tk tc mn mx off tb gl ic bp lp ig]; unfold calm;
+    cbn [base_size growth_limit incurred base_planned limit_planned];
+    intros _ [[b [Eb Hb]] [[g [Eg Hg]] [Ei [[p [Ep Hp]] [l [El Hl]]]]]]; subst tb gl ic bp lp.
+
+  Lemma calm_flush_base1 t : rigid inner t -> calm v t -> calm v (flush_base1 t).
+  Proof.
+    unfold flush_base1. calm_intro t. cbn. repeat split; eauto.
+    - exists (b + p). split; [reflexivity|lra].
+    - exists 0. split; reflexivity.
+  Qed.
+  Lemma calm_fix1 t : rigid inner t -> calm v t -> calm v (fix1 t).
+  Proof.
+    unfold fix1. calm_intro t. cbn.
+    assert (E : Qle_bool b g = true) by (apply Qle_bool_iff; lra). rewrite E. cbn. repeat split; eauto.
+  Qed.
+  Lemma calm_flush_gl1 b0 t : rigid inner t -> calm v t -> calm v (flush_gl1 b0 t).
+  Proof.
+    unfold flush_gl1. calm_intro t. cbn.
+    assert (E : Qle_bool l 0 = true) by (apply Qle_bool_iff; lra). rewrite E. cbn. repeat split; eauto.
+    exists 0. split; reflexivity.
+  Qed.
+  Lemma calm_span1_finish1 t : rigid inner t -> calm v t -> calm v (span1_finish1 t).
+  Proof.
+    unfold span1_finish1. calm_intro t. cbn.
+    assert (E : Qle_bool l 0 = true) by (apply Qle_bool_iff; lra). rewrite E. cbn.
+    assert (E2 : Qle_bool b g = true) by (apply Qle_bool_iff; lra). rewrite E2. cbn. repeat split; eauto.
+    exists 0. split; reflexivity.
+  Qed.
+  Lemma calm_finish1 t : rigid inner t -> calm v t -> calm v (finish1 t).
+  Proof. unfold finish1. calm_intro t. cbn. repeat split; eauto. Qed.
+  Lemma calm_span1_item it t : rigid inner t -> calm v t -> calm v (span1_item contrib inner avail it t).
+  Proof.
+    intros Hr Hc. assert (E : span1_item contrib inner avail it t = set_base t (base_size t)).
+    { destruct Hr as [R1 R2]. unfold span1_item.
+      destruct (definite_cases _ _ R1) as [[a E]|[a [s [E Ei]]]]; destruct (definite_cases _ _ R2) as [[w E']|[w [s' [E' Ei']]]];
+        rewrite E; cbn [maxf set_base]; rewrite E'; try rewrite Ei; try rewrite Ei'; reflexivity. }
+    rewrite E. destruct t; exact Hc.
+  Qed.
+
+  Variable items : list (item XQ).
+  Hypothesis Halone : forall it, In it items -> alone it i.
+
+  Section Batch.
+    Variable batch : list (item XQ).
+    Hypothesis Hsub : forall it, In it batch -> In it items.
+    Variables fl ff : bool.
+
+    Lemma keeps_step_minimums : keeps (step_minimums contrib inner avail fl ff batch).
+    Proof.
+      unfold step_minimums, flush_planned_base.
+      apply (keeps_fold_map (fun it ts => if it_crosses_intrinsic it then _ else ts) batch flush_base1);
+        [|apply pr_flush_base; reflexivity|apply calm_flush_base1].
+      intros it ts t Hin Ht Hr. destruct (it_crosses_intrinsic it); [|exact Ht].
+      apply to_base_keep; [exact Ht|apply Halone; apply Hsub; exact Hin|apply (rigid_unaffected inner t Hr)].
+    Qed.
+    Lemma keeps_step_content_minimums : keeps (step_content_minimums contrib inner fl ff batch).
+    Proof.
+      unfold step_content_minimums, flush_planned_base.
+      apply (keeps_fold_map (fun it ts => to_base fl ff it _ _ _ CMinimum ts) batch flush_base1);
+        [|apply pr_flush_base; reflexivity|apply calm_flush_base1].
+      intros it ts t Hin Ht Hr.
+      apply to_base_keep; [exact Ht|apply Halone; apply Hsub; exact Hin|apply (rigid_unaffected inner t Hr)].
+    Qed.
+    Lemma keeps_step_max_content_minimums : keeps (step_max_content_minimums contrib inner avail fl ff batch).
+    Proof.
+      unfold step_max_content_minimums. destruct avail; try solve [intros ts t Ht Hr Hc; exists t; auto].
+      unfold flush_planned_base.
+      apply (keeps_fold_map (fun it ts => if existsb has_max_content_min (item_slice it ts) then _ else _) batch flush_base1);
+        [|apply pr_flush_base; reflexivity|apply calm_flush_base1].
+      intros it ts t Hin Ht Hr. destruct (existsb has_max_content_min (item_slice it ts));
+        (apply to_base_keep; [exact Ht|apply Halone; apply Hsub; exact Hin|apply (rigid_unaffected inner t Hr)]).
+    Qed.
+    Lemma keeps_step_max_content_all : keeps (step_max_content_all contrib fl ff batch).
+    Proof.
+      unfold step_max_content_all, flush_planned_base.
+      apply (keeps_fold_map (fun it ts => to_base fl ff it _ _ _ CMaximum ts) batch flush_base1);
+        [|apply pr_flush_base; reflexivity|apply calm_flush_base1].
+      intros it ts t Hin Ht Hr.
+      apply to_base_keep; [exact Ht|apply Halone; apply Hsub; exact Hin|apply (rigid_unaffected inner t Hr)].
+    Qed.
+    Lemma keeps_step_intrinsic_maximums : keeps (step_intrinsic_maximums contrib inner batch).
+    Proof.
+      unfold step_intrinsic_maximums, flush_planned_growth_limit_increases.
+      apply (keeps_fold_map (fun it ts => to_limit inner it _ _ ts) batch (flush_gl1 true));
+        [|apply pr_flush_gl|apply calm_flush_gl1].
+      intros it ts t Hin Ht Hr.
+      apply to_limit_keep; [exact Ht|apply Halone; apply Hsub; exact Hin|apply (rigid_unaffected inner t Hr)].
+    Qed.
+    Lemma keeps_step_max_content_maximums : keeps (step_max_content_maximums contrib inner batch).
+    Proof.
+      unfold step_max_content_maximums, flush_planned_growth_limit_increases.
+      apply (keeps_fold_map (fun it ts => to_limit inner it _ _ ts) batch (flush_gl1 false));
+        [|apply pr_flush_gl|apply calm_flush_gl1].
+      intros it ts t Hin Ht Hr.
+      apply to_limit_keep; [exact Ht|apply Halone; apply Hsub; exact Hin|apply (rigid_unaffected inner t Hr)].
+    Qed.
+
+    Lemma keeps_general_batch : keeps (general_batch contrib inner avail fl ff batch).
+    Proof.
+      unfold general_batch. cbv zeta.
+      assert (H5 : keeps (fun ts => fix_growth_limits (step_max_content_all contrib fl ff batch
+                         (step_max_content_minimums contrib inner avail fl ff batch
+                            (step_content_minimums contrib inner fl ff batch (step_minimums contrib inner avail fl ff batch ts)))))).
+      { apply (keeps_comp (fun ts => step_max_content_all contrib fl ff batch _) fix_growth_limits);
+          [|unfold fix_growth_limits; apply keeps_map; [apply pr_fix; reflexivity|apply calm_fix1]].
+        apply (keeps_comp (fun ts => step_max_content_minimums contrib inner avail fl ff batch _) (step_max_content_all contrib fl ff batch));
+          [|apply keeps_step_max_content_all].
+        apply (keeps_comp (fun ts => step_content_minimums contrib inner fl ff batch _) (step_max_content_minimums contrib inner avail fl ff batch));
+          [|apply keeps_step_max_content_minimums].
+        apply (keeps_comp (step_minimums contrib inner avail fl ff batch) (step_content_minimums contrib inner fl ff batch));
+          [apply keeps_step_minimums|apply keeps_step_content_minimums]. }
+      destruct fl; [exact H5|].
+      apply (keeps_comp (fun ts => step_intrinsic_maximums contrib inner batch _) (step_max_content_maximums contrib inner batch));
+        [|apply keeps_step_max_content_maximums].
+      apply (keeps_comp (fun ts => fix_growth_limits _) (step_intrinsic_maximums contrib inner batch));
+        [exact H5|apply keeps_step_intrinsic_maximums].
+    Qed.
+
+    Lemma keeps_span1_batch : keeps (span1_batch contrib inner avail batch).
+    Proof.
+      unfold span1_batch, span1_finish.
+      apply (keeps_comp (fun ts => fold_left _ batch ts) (map span1_finish1));
+        [|apply keeps_map; [apply pr_span1_finish; reflexivity|apply calm_span1_finish1]].
+      clear Hsub. induction batch as [|it r IH]; intros ts t Ht Hr Hc; simpl.
+      - exists t. auto.
+      - set (ts1 := update_nth (S (it_start it)) (span1_item contrib inner avail it) ts).
+        assert (H1 : exists t1, nth_error ts1 i = Some t1 /\ rigid inner t1 /\ calm v t1).
+        { unfold ts1. rewrite nth_update_nth, Ht. destruct (Nat.eqb i (S (it_start it))); simpl.
+          - eexists. split; [reflexivity|]. split; [|apply calm_span1_item; assumption].
+            eapply rigid_static; [|exact Hr]. apply (prim_static _ (pr_span1_item false contrib inner avail it eq_refl) t I).
+          - exists t. auto. }
+        destruct H1 as [t1 [E1 [R1 C1]]]. apply (IH ts1 t1 E1 R1 C1).
+    Qed.
+  End Batch.
+
+  Lemma keeps_process_batch ffs batch fl : (forall it, In it batch -> In it items) ->
+    keeps (process_batch contrib inner avail ffs batch fl).
+  Proof.
+    intro Hsub. unfold process_batch. cbv zeta. destruct (negb fl && _); [apply keeps_span1_batch|apply keeps_general_batch; exact Hsub].
+  Qed.
+
+  Lemma keeps_batch_loop ffs sorted fuel : (forall it, In it sorted -> In it items) ->
+    forall off, keeps (batch_loop contrib inner avail fuel ffs off sorted).
+  Proof.
+    intro Hs. induction fuel as [|f IH]; intro off; cbn [batch_loop].
+    - intros ts t Ht Hr Hc. exists t. auto.
+    - destruct (next_batch off sorted) as [[next fl]|]; [|intros ts t Ht Hr Hc; exists t; auto]. cbv zeta.
+      assert (Hsub : forall it, In it (firstn (next - off) (skipn off sorted)) -> In it items).
+      { intros it Hin. apply Hs. eapply In_skipn_sub. eapply In_firstn_sub. exact Hin. }
+      destruct fl; [apply keeps_process_batch; exact Hsub|].
+      apply (keeps_comp (process_batch contrib inner avail ffs _ false) (batch_loop contrib inner avail f ffs next sorted));
+        [apply keeps_process_batch; exact Hsub|apply IH].
+  Qed.
+
+  Theorem intrinsic_keeps_rigid fuel : keeps (resolve_intrinsic_fuelled contrib inner avail fuel items).
+  Proof.
+    unfold resolve_intrinsic_fuelled. cbv zeta. intros ts.
+    apply (keeps_comp (batch_loop contrib inner avail fuel (fsum (map flex_factor ts)) 0 (sort_items items)) finish_infinite_limits).
+    - apply keeps_batch_loop. intros it Hin. apply In_sort_items. exact Hin.
+    - unfold finish_infinite_limits. apply keeps_map; [apply pr_finish; reflexivity|apply calm_finish1].
+  Qed.
+End Exact.
